@@ -58,8 +58,49 @@ void check_pair_axioms(const Ops &o, int ref, const std::string &what, pbt::Ctx 
     }
 }
 
+// the same pair in a wider character type (units are the bytes widened: same order), and the pair stretched to 16-80 units by a common
+// prefix (the comparison loops work on blocks in the SIMD builds: every position of a long operand has to count)
+template <typename Char_T>
+void check_wide_pair(const Str &a, const Str &b, pbt::Ctx &ctx) {
+    auto widen = [](const Str &x) {
+        jm::Units u;
+        for (unsigned char c : x) {
+            u.push_back(c);
+        }
+        return u;
+    };
+    auto run = [&](const Str &x, const Str &y, const char *tag) {
+        const int          ref = ref_cmp(x, y);
+        jm::Buf<Char_T>    bx(widen(x)), by(widen(y));
+        String<Char_T>     sx{bx.cp(), SizeT(bx.n)}, sy{by.cp(), SizeT(by.n)};
+        StringView<Char_T> vx{sx.First(), sx.Length()}, vy{sy.First(), sy.Length()};
+        const std::string  what = std::string(tag) + " (" + std::to_string(sizeof(Char_T)) + "-byte units) " + q(x) + " vs " + q(y);
+        check_pair_axioms(Ops{sx < sy, sx <= sy, sx > sy, sx >= sy, sx == sy, sx != sy}, ref, "String " + what, ctx);
+        check_pair_axioms(Ops{vx < vy, vx <= vy, vx > vy, vx >= vy, vx == vy, vx != vy}, ref, "StringView " + what, ctx);
+        if (x.size() == y.size() && StringUtils::IsEqual(bx.cp(), by.cp(), SizeT(bx.n)) != (ref == 0)) {
+            ctx.fail("differs-from-reference-order", "StringUtils::IsEqual " + what);
+        }
+    };
+    run(a, b, "widened");
+    // common prefix of 13-76 units in front of both: the operands differ (if at all) only behind it
+    const size_t k = 13 + (a.size() * 7 + b.size() * 11) % 64;
+    Str          pre;
+    for (size_t i = 0; i < k; ++i) {
+        pre.push_back(char('a' + (i * 5 + a.size()) % 3));
+    }
+    run(pre + a, pre + b, "long");
+    if (sizeof(Char_T) == 2) { // and behind both (the difference sits in front, the tail must not hide it)
+        run(a + pre, b + pre, "long-tail");
+    }
+}
+
 // all string-flavoured comparison surfaces for one ordered pair
 void check_string_pair(const Str &a, const Str &b, pbt::Ctx &ctx) {
+    if (a.find('\0') == Str::npos && b.find('\0') == Str::npos) {
+        check_wide_pair<char16_t>(a, b, ctx);
+        check_wide_pair<char32_t>(a, b, ctx);
+        check_wide_pair<char>(a, b, ctx);
+    }
     const int    ref = ref_cmp(a, b);
     String<char> sa{a.c_str(), SizeT(a.size())}, sb{b.c_str(), SizeT(b.size())};
     StringView<char> va{sa.First(), sa.Length()}, vb{sb.First(), sb.Length()};
